@@ -67,6 +67,9 @@ func genC10(r *rand.Rand, tier string, env *Env) []Case {
 			// arbitrary line material: commented-out directives, unbalanced markers, odd spacing and arguments
 			kind = "ra-bytes"
 			in := genRaBytes(r, 12)
+			if i%60 == 21 {
+				kind, in = "big-file", genBigRa(r)
+			}
 			args = [][]byte{nil, nil, nil, nil, nil, nil, []byte(in), []byte("i"), []byte("foo.ra"), []byte("a\nb\n"), []byte("i"), []byte("bar.ra"), []byte("c\n")}
 			for k := 0; k < 6; k++ {
 				args[k] = []byte{}
